@@ -23,7 +23,8 @@ Record case := mkCase {
   actions : list act;
   snaps : list (option snap);         (* after each action; None = not observed *)
   answers_obs : list (nat * bool);    (* tree requests in order: tree id, answered *)
-  drained : bool }.                   (* the scenario ended with every timer run to completion *)
+  drained : bool;                     (* the scenario ended with every timer run to completion *)
+  stale : list nat }.                 (* positions of TimerDelete actions whose removal had been cancelled before *)
 
 Definition tcode (t : tstate) : nat := match t with TAbsent => 0 | TRequested => 1 | TPresent => 2 end.
 Definition icode (i : istate) : nat := match i with INone => 0 | IDone => 2 | _ => 1 end.
@@ -154,11 +155,30 @@ Fixpoint last_snap (l : list (option snap)) (acc : option snap) : option snap :=
   | None :: r => last_snap r acc
   end.
 
+(* 6: the timer goroutine of a CANCELLED removal must not change the tree store *)
+Fixpoint nth_snap_before (l : list (option snap)) (j : nat) (acc : option snap) : option snap :=
+  match l, j with
+  | _, 0 => acc
+  | [], _ => acc
+  | Some o :: r, S j' => nth_snap_before r j' (Some o)
+  | None :: r, S j' => nth_snap_before r j' acc
+  end.
+
+Definition same_trees (a b : snap) : bool :=
+  forallb (fun '(i, c) => match lookup_nat (sn_trees b) i with Some c' => c' =? c | None => false end) (sn_trees a).
+
+Definition stale_ok (snaps : list (option snap)) (j : nat) : bool :=
+  match nth_snap_before snaps j None, nth_error snaps j with
+  | Some p, Some (Some n) => same_trees p n
+  | _, _ => true
+  end.
+
 Definition check (c : case) : list nat :=
   clause 1 (forallb (fun o => match o with Some n => snap_tree_while_used n | None => true end) (snaps c)) ++
   clause 2 (pairs_ok done_final2 None (snaps c)) ++
   clause 3 (grace_answers None (actions c) (snaps c) (answers_obs c)) ++
   clause 4 (negb (drained c) || match last_snap (snaps c) None with Some n => released n | None => true end) ++
-  clause 5 (others_unaffected None (actions c) (snaps c)).
+  clause 5 (others_unaffected None (actions c) (snaps c)) ++
+  clause 6 (forallb (stale_ok (snaps c)) (stale c)).
 
 Definition violations (l : list case) : list (nat * nat) := viols check l.
